@@ -197,7 +197,7 @@ func runC13(r *rt.Runner) {
 			} else {
 				o := &fontOpts{maxGlyphs: 8, fractional: true, hostileStr: true}
 				f := genFont(rng, o)
-				if k%4 == 1 {
+				if rng.IntN(4) == 0 {
 					// a glyph whose charstring is several output buffers long (the
 					// encrypting and the hex writers work in 512-byte blocks, so one
 					// Write call from above then flushes more than once)
@@ -242,6 +242,10 @@ func runC13(r *rt.Runner) {
 				step := 1
 				if r.Quick() && B > 2048 {
 					step = 37
+				} else if B > 8192 {
+					// large outputs (fonts with a glyph of a thousand segments): every
+					// offset of the first 2 KiB and the last 64 bytes, about 4000 in between
+					step = B/4096 + 1
 				}
 				for kb := 0; kb < B; kb++ {
 					if kb >= 2048 && kb%step != 0 && kb < B-64 {
